@@ -93,8 +93,8 @@ for ty in ("i8", "i16", "i32", "i64", "i128", "isize"):
 row("crate::from::<impl core::convert::TryFrom<f64> for %s>::try_from" % U, "diverge", "assert!#Eq(sign,0)",
     "sign bit is 0 because value < 0.0 returned ValueNegative earlier and -0.0 + 0.5 > 0 (float arithmetic, C18 "
     "clause decided by R-FLOAT classification order)")
-row("crate::from::<impl core::convert::TryFrom<f64> for %s>::try_from" % U, "diverge", "assert!#Ge(biased_exponent,1023)",
-    "value >= 1.0 at this point (values < 0.5 returned ZERO, then +0.5): exponent arithmetic")
+row("crate::from::<impl core::convert::TryFrom<f64> for %s>::try_from" % U, "diverge", "assert!#Ge(biased_exponent,1022)",
+    "value >= 0.5 at this point (values < 0.5 returned ZERO): exponent arithmetic")
 row("crate::from::<impl core::convert::TryFrom<f64> for %s>::try_from" % U, "diverge", "assert!#is_normal",
     "value is finite and >= 0.5 here (NaN, negative, >= 2^BITS and < 0.5 returned earlier); infinity is caught by "
     "the >= exp2(BITS) test only when exp2(BITS) is finite -- float classification, see R-FLOAT")
